@@ -2,7 +2,7 @@
 
 use std::cell::Cell;
 
-use gc_arena::collect::Trace;
+use gc_arena::collect::{DynCollect, Trace, dyn_collect};
 use gc_arena::lock::{Lock, OnceLock, RefLock};
 use gc_arena::{Collect, Gc, GcWeak};
 
@@ -27,6 +27,9 @@ pub enum P<'gc> {
     /// `Gc<OnceLock<OnceBody>>`
     SO(Gc<'gc, OnceCellT<'gc>>),
     WO(GcWeak<'gc, OnceCellT<'gc>>),
+    /// slots behind a `dyn_collect!` trait object
+    SD(Gc<'gc, DynNode<'gc>>),
+    WD(GcWeak<'gc, DynNode<'gc>>),
 }
 
 impl<'gc> P<'gc> {
@@ -37,6 +40,7 @@ impl<'gc> P<'gc> {
             P::SR(g) => Some(Gc::erase(g)),
             P::SC(g) => Some(Gc::erase(g)),
             P::SO(g) => Some(Gc::erase(g)),
+            P::SD(g) => Some(Gc::erase(g)),
             _ => None,
         }
     }
@@ -47,6 +51,7 @@ impl<'gc> P<'gc> {
             P::WR(g) => Some(GcWeak::erase(g)),
             P::WC(g) => Some(GcWeak::erase(g)),
             P::WO(g) => Some(GcWeak::erase(g)),
+            P::WD(g) => Some(GcWeak::erase(g)),
             _ => None,
         }
     }
@@ -57,11 +62,13 @@ impl<'gc> P<'gc> {
             P::SR(g) => Gc::as_ptr(g) as *const () as usize,
             P::SC(g) => Gc::as_ptr(g) as *const () as usize,
             P::SO(g) => Gc::as_ptr(g) as *const () as usize,
+            P::SD(g) => Gc::as_ptr(g) as *const () as usize,
             P::W(g) => GcWeak::as_ptr(g) as *const () as usize,
             P::WL(g) => GcWeak::as_ptr(g) as *const () as usize,
             P::WR(g) => GcWeak::as_ptr(g) as *const () as usize,
             P::WC(g) => GcWeak::as_ptr(g) as *const () as usize,
             P::WO(g) => GcWeak::as_ptr(g) as *const () as usize,
+            P::WD(g) => GcWeak::as_ptr(g) as *const () as usize,
         }
     }
     pub fn downgrade(self) -> P<'gc> {
@@ -71,6 +78,7 @@ impl<'gc> P<'gc> {
             P::SR(g) => P::WR(Gc::downgrade(g)),
             P::SC(g) => P::WC(Gc::downgrade(g)),
             P::SO(g) => P::WO(Gc::downgrade(g)),
+            P::SD(g) => P::WD(Gc::downgrade(g)),
             x => x,
         }
     }
@@ -81,6 +89,7 @@ impl<'gc> P<'gc> {
             P::WR(g) => g.upgrade(mc).map(P::SR),
             P::WC(g) => g.upgrade(mc).map(P::SC),
             P::WO(g) => g.upgrade(mc).map(P::SO),
+            P::WD(g) => g.upgrade(mc).map(P::SD),
             _ => None,
         }
     }
@@ -91,6 +100,7 @@ impl<'gc> P<'gc> {
             P::WR(g) => g.is_dropped(),
             P::WC(g) => g.is_dropped(),
             P::WO(g) => g.is_dropped(),
+            P::WD(g) => g.is_dropped(),
             _ => false,
         }
     }
@@ -101,11 +111,13 @@ impl<'gc> P<'gc> {
             P::SR(g) => Gc::is_dead(fc, g),
             P::SC(g) => Gc::is_dead(fc, g),
             P::SO(g) => Gc::is_dead(fc, g),
+            P::SD(g) => Gc::is_dead(fc, g),
             P::W(g) => g.is_dead(fc),
             P::WL(g) => g.is_dead(fc),
             P::WR(g) => g.is_dead(fc),
             P::WC(g) => g.is_dead(fc),
             P::WO(g) => g.is_dead(fc),
+            P::WD(g) => g.is_dead(fc),
         }
     }
     /// `Gc::resurrect` / `GcWeak::resurrect`: `Ok(())` for a strong pointer, `Err(result)` for a
@@ -117,11 +129,13 @@ impl<'gc> P<'gc> {
             P::SR(g) => Ok(Gc::resurrect(fc, g)),
             P::SC(g) => Ok(Gc::resurrect(fc, g)),
             P::SO(g) => Ok(Gc::resurrect(fc, g)),
+            P::SD(g) => Ok(Gc::resurrect(fc, g)),
             P::W(g) => Err(g.resurrect(fc).map(P::S)),
             P::WL(g) => Err(g.resurrect(fc).map(P::SL)),
             P::WR(g) => Err(g.resurrect(fc).map(P::SR)),
             P::WC(g) => Err(g.resurrect(fc).map(P::SC)),
             P::WO(g) => Err(g.resurrect(fc).map(P::SO)),
+            P::WD(g) => Err(g.resurrect(fc).map(P::SD)),
         }
     }
     /// The payload id read through a strong pointer (`None`: an empty `OnceCell` carries none).
@@ -132,6 +146,7 @@ impl<'gc> P<'gc> {
             P::SR(g) => Some(Some(g.borrow().id.get())),
             P::SC(g) => Some(Some(g.get().id)),
             P::SO(g) => Some(g.get().map(|b| b.id)),
+            P::SD(g) => Some(Some(g.inner.id())),
             _ => None,
         }
     }
@@ -307,6 +322,73 @@ unsafe impl<'gc> Collect<'gc> for OnceBody<'gc> {
         if fault.is_some() {
             std::panic::panic_any(TraceFault);
         }
+    }
+}
+
+/// The slots of a `DynNode`, seen through a client trait object.  `'gc` as a supertrait bound makes
+/// `dyn DynSlots<'gc>` mean `dyn DynSlots<'gc> + 'gc`.
+pub trait DynSlots<'gc>: 'gc + DynCollect<'gc> {
+    fn id(&self) -> u64;
+    fn get(&self, i: usize) -> Option<P<'gc>>;
+    /// # Safety
+    /// the caller places the write barrier on the `Gc` that owns the box
+    unsafe fn set(&self, i: usize, v: Option<P<'gc>>);
+}
+dyn_collect!(dyn DynSlots<'gc>);
+
+pub struct DynBody<'gc> {
+    pub id: Cell<u64>,
+    pub slots: [RefLock<Option<P<'gc>>>; NSLOTS],
+}
+
+unsafe impl<'gc> Collect<'gc> for DynBody<'gc> {
+    const NEEDS_TRACE: bool = true;
+
+    fn trace<C: Trace<'gc>>(&self, cc: &mut C) {
+        let fault = trace_enter();
+        for (i, s) in self.slots.iter().enumerate() {
+            if fault == Some(i) {
+                std::panic::panic_any(TraceFault);
+            }
+            trace_p(&s.borrow(), cc);
+        }
+        if matches!(fault, Some(j) if j >= NSLOTS) {
+            std::panic::panic_any(TraceFault);
+        }
+    }
+}
+
+impl<'gc> Drop for DynBody<'gc> {
+    fn drop(&mut self) {
+        alloc::push_event(Ev::Dropped(self.id.get()));
+        self.id.set(TOMB);
+    }
+}
+
+impl<'gc> DynSlots<'gc> for DynBody<'gc> {
+    fn id(&self) -> u64 {
+        self.id.get()
+    }
+    fn get(&self, i: usize) -> Option<P<'gc>> {
+        *self.slots[i].borrow()
+    }
+    unsafe fn set(&self, i: usize, v: Option<P<'gc>>) {
+        unsafe { *self.slots[i].as_ref_cell().borrow_mut() = v };
+    }
+}
+
+/// An object that holds its pointers through a trait object: `Collect for Box<T>` forwards to
+/// `Collect for dyn DynSlots<'gc>` (generated by `dyn_collect!`), which goes through
+/// `DynCollect::dyn_trace` and its `&mut dyn Trace` adapter before reaching `DynBody::trace`.
+pub struct DynNode<'gc> {
+    pub inner: Box<dyn DynSlots<'gc> + 'gc>,
+}
+
+unsafe impl<'gc> Collect<'gc> for DynNode<'gc> {
+    const NEEDS_TRACE: bool = true;
+
+    fn trace<C: Trace<'gc>>(&self, cc: &mut C) {
+        cc.trace(&self.inner);
     }
 }
 
